@@ -278,6 +278,15 @@ def run(repo: Repo, L: Ledger, tier: str):
                         agp_paths.add(norm(n.targets[0]))
         if not agp_paths:
             continue
+        # path variables derived from an AGP path (temporary siblings, with_suffix results ...)
+        grew = True
+        while grew:
+            grew = False
+            for n in walk_shallow(fn.node):
+                if isinstance(n, ast.Assign) and len(n.targets) == 1 and isinstance(n.targets[0], ast.Name) and norm(n.targets[0]) not in agp_paths:
+                    if any(norm(x) in agp_paths for x in ast.walk(n.value) if isinstance(x, ast.Name | ast.Attribute)) and not _opens(repo, fn, n.value):
+                        agp_paths.add(n.targets[0].id)
+                        grew = True
         handles = set()
         for n in walk_shallow(fn.node):
             val = tgt = None
@@ -286,13 +295,8 @@ def run(repo: Repo, L: Ledger, tier: str):
             elif isinstance(n, ast.withitem) and n.optional_vars is not None:
                 val, tgt = n.context_expr, n.optional_vars
             if val is not None and isinstance(val, ast.Call) and isinstance(tgt, ast.Name):
-                mode = None
                 opens_agp = any(norm(x) in agp_paths for x in ast.walk(val) if isinstance(x, ast.Name | ast.Attribute))
-                is_write = True
-                if isinstance(val.func, ast.Attribute) and val.func.attr == "open":
-                    m = val.args[0] if val.args else None
-                    is_write = m is not None
-                if opens_agp and is_write and "parse" not in norm(val.func):
+                if opens_agp and _opens(repo, fn, val) == "w":
                     handles.add(tgt.id)
         for h in handles:
             n_h += 1
@@ -310,3 +314,35 @@ def run(repo: Repo, L: Ledger, tier: str):
                 L.ok("O9", f"{fn.short}:{h}", "AGP handle only handed to format_agp", fn.loc())
     L.floor("O9", "AGP output handles", n_h, 2)
     L.assume("rows are Fragment or Gap objects with length >= 1")
+
+
+def _opens(repo, fn, val):
+    """'w' / 'r' when the call opens a file (directly or through a repo function that returns an
+    open() result), else None."""
+    if not isinstance(val, ast.Call):
+        return None
+    if isinstance(val.func, ast.Attribute) and val.func.attr == "open":
+        m = val.args[0] if val.args else None
+        if m is None:
+            return "r"
+        from ..fold import try_fold
+
+        c = try_fold(m, default="w")
+        return "w" if any(ch in c for ch in "wax+") else "r"
+    if dotted(val.func) == "open":
+        m = val.args[1] if len(val.args) > 1 else None
+        return "w" if m is not None else "r"
+    targets, _, _ = repo.resolve_call(val, fn)
+    for t in targets:
+        for r in walk_shallow(t.node):
+            if isinstance(r, ast.Return) and r.value is not None:
+                rv = r.value
+                if isinstance(rv, ast.Name):
+                    from ..util import local_defs
+
+                    for d in local_defs(t, rv.id):
+                        if isinstance(d, ast.Call) and isinstance(d.func, ast.Attribute) and d.func.attr == "open":
+                            return "w"
+                elif isinstance(rv, ast.Call) and isinstance(rv.func, ast.Attribute) and rv.func.attr == "open":
+                    return "w"
+    return None
